@@ -25,6 +25,8 @@ Reads
   the same files: a checkpoint frame in flight (S25 fix): compaction_checkpoint_caches_behind_head_v1 has the body the
       model's `ckpts_seen true` states and both *_for_compile_v1 lookups ask the checkpoint caches only when it is false
       -> gen_racing_ckpt_fixed (obligation gen_racing_ckpt_ok)
+  continuity_stream_cache.rs : the mr seek window is handed over only when `found_messages >= message_limit ||
+      scan.complete`; at its scan bound it answers None (S26 fix) -> gen_window_accept_sound (obligation gen_window_accept_ok)
 Emits coq/Gen/CompileConsts.v: gen_recent_limit, gen_max_refs : N, gen_ckpt_frame_rule, gen_ok_compile_consts : bool and the obligation
 gen_compile_consts_ok.  The C08 theorems hold for every limit / level count; the case files evaluate the model at
 the generated values.  A construct that is not found sets gen_ok_compile_consts := false (never guess)."""
@@ -183,6 +185,12 @@ def main():
         need2(("letcached=ifself.stream_cache.compaction_checkpoint_caches_behind_head_v1(continuity_id){Ok(None)}else{self.stream_cache.%s};ifletOk(Some(" % call) in fb_
               and fb_.count("_before_or_at_seq_v1(") == 1,
               "%s: the cache is asked only when it does not lag behind the head" % name)
+    # ---- the mr seek window hands over only a window that is complete or holds `limit` messages (S26 fix)
+    window_sound = ("iffound_messages>=message_limit||scan.complete{selected_rev.reverse();returnOk(Some(ContinuityWindow{events:selected_rev,from_seq,from_message_id:Some(anchor_message_id.to_string()),}));}ifbackscan_bytes>=MAX_BACKSCAN_BYTES{returnOk(None);}" in wb
+                    and wb.count("Ok(Some(ContinuityWindow{") == 1
+                    and "ifevent.seq>from_seq{continue;}selected_rev.push(event.clone());ifmatches!(event.kind,EventKind::ContinuityMessageAppended{..}){found_messages=found_messages.saturating_add(1);iffound_messages>=message_limit{break;}}" in wb)
+    if not window_sound:
+        notes.append("mr seek window: the accept test `found_messages >= message_limit || scan.complete` (and None at the scan bound) / the counting loop not found")
     # checkpoint visibility rule of the two *_for_compile_v1 truth loops: `to_seq <= from_seq` alone (S9) or also the
     # checkpoint frame's own seq (`event.seq > from_seq` skipped).  Both loops must agree, else never guess.
     fn_body = fn_body0
@@ -230,11 +238,16 @@ def main():
         f.write("Definition gen_racing_head_fixed : bool := %s.\n" % ("true" if head_fixed else "false"))
         f.write("(* the *_for_compile_v1 lookups skip checkpoint caches that lag behind the head (Model/Compile.v ckpts_seen true, S25 fix) *)\n")
         f.write("Definition gen_racing_ckpt_fixed : bool := %s.\n" % ("true" if ckpt_fixed else "false"))
+        f.write("(* the mr seek window is handed over only when complete or holding `limit` messages at or before the cut (Model/Compile.v window_rev; S26 fix) *)\n")
+        f.write("Definition gen_window_accept_sound : bool := %s.\n" % ("true" if window_sound else "false"))
         f.write("Definition gen_ok_compile_consts : bool := %s.\n" % ("true" if ok else "false"))
         f.write("Lemma gen_compile_consts_ok : gen_ok_compile_consts && (0 <? gen_recent_limit) && (0 <? gen_max_refs) = true.\n")
         f.write("Proof. vm_compute. reflexivity. Qed.\n")
         f.write("(* c08_racing_append_linearizes / c08_racing_compile_linearizes are about `head_seen true` *)\n")
         f.write("Lemma gen_racing_head_ok : gen_racing_head_fixed = true.\n")
+        f.write("Proof. vm_compute. reflexivity. Qed.\n")
+        f.write("(* c08_window_path_agrees is about the window loop without a scan bound *)\n")
+        f.write("Lemma gen_window_accept_ok : gen_window_accept_sound = true.\n")
         f.write("Proof. vm_compute. reflexivity. Qed.\n")
         f.write("(* c08_racing_checkpoint_linearizes is about `ckpts_seen true` *)\n")
         f.write("Lemma gen_racing_ckpt_ok : gen_racing_ckpt_fixed = true.\n")
@@ -244,7 +257,7 @@ def main():
         f.write("Proof. vm_compute. reflexivity. Qed.\n")
     for n in notes:
         print("note:", n)
-    print("compile_consts: limit=%s max_refs=%s frame_rule=%s tail_count=%s racing_head_fixed=%s racing_ckpt_fixed=%s ok=%s" % (limit, refs, rule, tail_count, head_fixed, ckpt_fixed, ok))
+    print("compile_consts: limit=%s max_refs=%s frame_rule=%s tail_count=%s racing_head_fixed=%s racing_ckpt_fixed=%s window_accept_sound=%s ok=%s" % (limit, refs, rule, tail_count, head_fixed, ckpt_fixed, window_sound, ok))
     return 0
 
 
